@@ -310,6 +310,25 @@ class World:
     def call_func(self, f, args, kwargs=None):
         self.calls.append(("function", f.node.name))
         self.externals()
+        if any(((A.dotted(d.func) if isinstance(d, ast.Call) else A.dotted(d)) or "").split(".")[-1] in ("lru_cache", "cache") for d in f.node.decorator_list):
+            # functools memoisation: one result per argument tuple for the life of the process (objects by identity)
+            def key_of(v):
+                if isinstance(v, (str, bool)) or v is None:
+                    return ("v", v)
+                if isinstance(v, Poly):
+                    return ("p", str(v))
+                if isinstance(v, tuple):
+                    return ("t", tuple(key_of(x) for x in v))
+                return ("id", id(v))
+            memo = self.__dict__.setdefault("_memo", {})
+            k_ = (f.node.name, tuple(key_of(a) for a in args), tuple(sorted((n, key_of(v)) for n, v in (kwargs or {}).items())))
+            if k_ in memo:
+                return memo[k_]
+            memo[k_] = self._call_func_body(f, args, kwargs)
+            return memo[k_]
+        return self._call_func_body(f, args, kwargs)
+
+    def _call_func_body(self, f, args, kwargs=None):
         env = dict(self.module_env)
         env.update(self._bind(f.node, list(args), kwargs or {}, skip_self=False))
         it = Interp(env, {}, self.region, externals=self.externals())
